@@ -23,7 +23,7 @@ P = {
          "Contexts are drawn from a fixed grammar of context kinds.",
          "4/C04"),
  "C05": ("behavioural round-trip PBT (emit -> JSON -> reload in a fresh heap -> apply) over generated closed closures, with exhaustive small parent/child shapes",
-         "Exploration: functions are emitted as __blots_function source, reloaded as an input of a fresh program and applied to generated argument tuples; results (or failure) must equal the original's, also for the second generation.",
+         "Exploration: functions are emitted as __blots_function source, reloaded as an input of a fresh program and applied to generated argument tuples; results (or failure) must equal the original's, also for the second generation. Designed forms put `#name` / `inputs.name` (inputs of every type and sign, names that are reserved words) in every operand position and bind functions to the names of values they captured.",
          "Equivalence is sampled on generated argument tuples, not proved.",
          "4/C05"),
  "C06": ("round-trip PBT over a recursive JSON value generator; differential against Rust's correctly rounded float parser",
@@ -79,7 +79,7 @@ P = {
          "The real binary decides crashes and depth errors; RLIMIT_STACK 8 MiB models the default main-thread stack. The work oracle runs in-process and reports growth above six times the linear extrapolation.",
          "4/C18"),
  "C19": ("model-based PBT of the CLI: generated scripts x input sets x invocation modes against a reference model of merging, outputs and exit status",
-         "Exploration on the real binary: generated scripts (0..6 outputs, optional failing statement anywhere) x input sets (stdin and/or several -i, objects and non-objects, overlapping keys) x modes (file, inline, -e, -o) are run and compared with a reference model.",
+         "Exploration on the real binary: generated scripts (0..6 outputs, optional failing statement anywhere) x input sets (stdin and/or several -i, objects and non-objects, overlapping keys) x modes (file, inline, -e, -o) are run and compared with a reference model. Function inputs the language refuses may be reported as an input error but must never be skipped silently (earlier keys showing through, value_N numbering shifting).",
          "The model computes values only for the generated script fragment (literals, #k, inputs.k, simple arithmetic).",
          "4/C19"),
  "C20": ("PBT over double bit patterns with an independent numeral grammar and exact decimal error bound",
